@@ -90,31 +90,8 @@ theorem mps_left_ok (hshape : ∀ B, ShapeAt dqr B) {ψ : MPS 𝕜} (hadm : Admi
   simp only at hA hq hw
   subst hA hq
   obtain ⟨As, qs, T, hs⟩ := sweepLeft_ok hshape hadm.d_pos (by omega) hw hl
-  obtain ⟨-, -, w3, w4, w5, w6⟩ := (sweepLeft_of_run hs).wf hshape hadm.d_pos (by omega) hw
-  have hqne : qrest ≠ [] := by
-    intro h; subst h; simp at hw
-  have t1 : T.d1 = 1 := by
-    have hle := bondLe_last q0 q0 w6 hqne
-    rw [hl, ← w5] at hle
-    -- positivity of the last new bond
-    have hpos : 0 < T.d1 := by
-      have := (sweepLeft_of_run hs).wf hshape hadm.d_pos (by omega) hw
-      have hw' := this.1
-      have hadm' := wfChain_chain3 hw'
-      rw [w5]
-      cases hqs : qs with
-      | nil => simp only [List.getLast?_singleton, Option.getD_some]; omega
-      | cons q qs' =>
-        have hall := ((forall₂_iff_wfChain qd As q0 qs).2 hw').2.2
-        have : (q0 :: qs).getLast?.getD [] ∈ qs := by
-          rw [hqs, List.getLast?_cons_cons]
-          have := List.getLast?_eq_some_getLast (l := q :: qs') (by simp)
-          rw [this]
-          exact List.getLast_mem _
-        rw [← hqs]
-        exact hall _ this
-    omega
-  have hT : (T.d0 == 1 && T.d1 == 1 && T.d2 == 1) = true := (dims_one_iff T).2 ⟨w3, t1, w4⟩
+  have hT : (T.d0 == 1 && T.d1 == 1 && T.d2 == 1) = true :=
+    (dims_one_iff T).2 ((sweepLeft_of_run hs).dims_one hshape hadm.d_pos (by omega) hw hl)
   rw [ortho_left_eq, hs]
   dsimp only
   rw [if_pos hT]
